@@ -29,6 +29,11 @@ where
 
     /// The maximum size for goals.
     max_size: usize,
+
+    /// Set when `should_continue` returned false during the current root
+    /// solve. Results computed after that point are incomplete and must not
+    /// be promoted to the cache.
+    interrupted: bool,
 }
 
 pub(super) trait SolverStuff<K, V>: Copy
@@ -79,11 +84,17 @@ where
             search_graph: SearchGraph::new(),
             cache,
             max_size,
+            interrupted: false,
         }
     }
 
     pub fn max_size(&self) -> usize {
         self.max_size
+    }
+
+    /// Records that the current root solve was cut short by `should_continue`.
+    pub fn note_interrupted(&mut self) {
+        self.interrupted = true;
     }
 
     /// Solves a canonical goal. The substitution returned in the
@@ -115,6 +126,7 @@ where
             self.stack.clear();
             self.search_graph.clear();
         }
+        self.interrupted = false;
         let minimums = &mut Minimums::new();
         self.solve_goal(canonical_goal, minimums, solver_stuff, should_continue)
     }
@@ -184,7 +196,7 @@ where
             // cache now. This is a sort of hack to alleviate the
             // worst of the repeated work that we do during tabling.
             if subgoal_minimums.positive >= dfn {
-                if let Some(cache) = &mut self.cache {
+                if let (Some(cache), false) = (&mut self.cache, self.interrupted) {
                     self.search_graph.move_to_cache(dfn, cache);
                     debug!("solve_reduced_goal: SCC head encountered, moving to cache");
                 } else {
